@@ -654,8 +654,34 @@ func checkC16(c *Case, trace bool) *CaseResult {
 		res.Stats["diff.wirings-compared"] += len(ia) + len(fa)
 	}
 	if msg != "" {
-		res.Viol = append(res.Viol, Violation{Props: []string{"C16"}, Rule: "C16.order-changes-behaviour", Op: at,
-			Msg: "reordered history behaves differently: " + msg})
+		v := Violation{Props: []string{"C16"}, Rule: "C16.order-changes-behaviour", Op: at,
+			Msg: "reordered history behaves differently: " + msg}
+		// two situations in which dig's outcome is known to depend on the order (known findings F22, F23)
+		// get a witness class of their own, so that any other order dependence is still reported
+		wm := newWorld(h1, true, false)
+		wm.Run()
+		switch {
+		case wm.mon.decoratorMediatedCycle(wm.mon.role):
+			v.Class = "decorator-mediated-cycle"
+			res.Stats["diff.c16.decorator-mediated-cycle"]++
+		case failedInvokeBefore(a, at) || failedInvokeBefore(b, len(t.Ops)):
+			v.Class = "after-failed-invoke"
+			res.Stats["diff.c16.after-failed-invoke"]++
+		}
+		res.Viol = append(res.Viol, v)
 	}
 	return res
+}
+
+// failedInvokeBefore: some Invoke before op index limit failed (what it had built before failing is cached).
+func failedInvokeBefore(w *World, limit int) bool {
+	for k, rec := range w.ops {
+		if k >= limit || rec == nil {
+			continue
+		}
+		if w.h.Ops[k].Kind == OpInvoke && w.h.Ops[k].Invalid == "" && rec.Verdict != VOk {
+			return true
+		}
+	}
+	return false
 }
